@@ -47,9 +47,12 @@ def check(run):
     run.obligation("correspondence: model = implementation on every enumerated pair", corr_ok)
     if not corr_ok and not run.violations:
         run.violation("correspondence-broken", "case files could not be evaluated", dict(notes=run.notes), no_input=True)
-    if not tie["ok"] and corr_ok:
-        run.notes.append("translator tie did not hold (%s); exhaustive correspondence is clean, so the model still "
-                         "describes the code: tie = correspondence only" % tie["mode"])
+    if not tie["ok"] and not run.violations:
+        # the translation of the current source is no longer proved equal to the model and the search (exhaustive short
+        # strings, DID-like and realistic pairs) found no input on which they differ: the property is no longer SHOWN
+        run.violation("tie-broken", "Tie_Pattern no longer checks against the functions translated from the current source (%s); "
+                      "the exhaustive / random correspondence found no pair on which the implementation differs from the model" % tie["mode"],
+                      dict(theorem="coqgen/Tie_Pattern.v", mode=tie["mode"], log=tie["log"][-1500:]), no_input=True)
     if not env["props_ok"] or not env["coq_ok"]:
         run.violation("proof-broken", "Coq development or Properties_C16.v no longer checks", dict(log=env["props_log"][-1500:]), no_input=True)
     n = stats["pairs"] + stats["random_pairs"]
